@@ -98,6 +98,7 @@ def run_inputs(sess, trees, st, judge, ctx, batch=40):
                 if r is None:
                     st.inconclusive += 1
                     st.count("set_mathml_killed_driver")
+                    st.notes.append("set_mathml killed or hung the driver (%s): %s" % (type(getattr(sess, "last_failure", None)).__name__, t.xml()[:700]))
                     r = {"r": "died"}
                 res.append(r)
         for t, r in zip(chunk, res):
